@@ -263,6 +263,10 @@ class _Gen(object):
             m.emit('')
         if d.layout == 'google':
             nblocks = r.choice([0, 1, 1, 2, 2, 3])
+            if r.random() < 0.04:
+                # MANY sections in one docstring (ten and more groups: two-digit group numbers, names func:10 …)
+                nblocks = r.randint(9, 13)
+                m.features.add('google:ten-and-more-blocks')
             sections = ['E'] * nblocks + ['O'] * r.randint(0, 2)
             r.shuffle(sections)
             if nblocks and r.random() < 0.15:
